@@ -395,3 +395,194 @@ Proof. solve_match_const. Qed.
 (* pid = file.read(1) and the comparisons pid == PROPERTY.X *)
 Lemma gen_rd_pid bs : rd_read bs 1 = (match bs with [] => [] | b :: _ => [b] end, match bs with [] => [] | _ :: r => r end).
 Proof. destruct bs; reflexivity. Qed.
+
+(* the general form: a loop whose body is "read one item with rd, update the rest of the state with it" *)
+Lemma gen_fold_loop {A St X} (rd : reader A) (upd : St -> A -> St) (P : bytes -> Prop)
+      (body : X -> St * bytes -> res ((St * bytes) * bool)) :
+  (forall x s bs, P bs -> body x (s, bs) = match rd bs with Ok (v, r) => Ok ((upd s v, r), false) | Err e => Err e end) ->
+  (forall bs v r, P bs -> rd bs = Ok (v, r) -> P r /\ (length r < length bs)%nat) ->
+  forall (xs : list X) s bs f, P bs -> (length bs < f)%nat ->
+  for_m xs body (s, bs) = (do (l, r) <- rd_rep f (Z.of_nat (length xs)) rd bs; Ok (fold_left upd l s, r)).
+Proof.
+  intros Hb Hp xs. induction xs as [|x xs IH]; intros s bs f HP Hf.
+  - cbn [for_m length]. rewrite rd_rep_nonpos by reflexivity. reflexivity.
+  - destruct f as [|f]; [lia|]. cbn [for_m rd_rep length]. destruct (Z.of_nat (S (length xs)) <=? 0) eqn:E0; [lia|].
+    rewrite (Hb x s bs HP). destruct (rd bs) as [[v r]|e] eqn:Er; cbn [bind]; [|reflexivity].
+    destruct (Hp _ _ _ HP Er) as [HPr Hlen].
+    rewrite (IH (upd s v) r f HPr ltac:(lia)).
+    replace (Z.of_nat (S (length xs)) - 1) with (Z.of_nat (length xs)) by lia.
+    destruct (rd_rep f (Z.of_nat (length xs)) rd r) as [[l r']|e]; reflexivity.
+Qed.
+
+Lemma gen_fold_many {A St} (rd : reader A) (upd : St -> A -> St) (P : bytes -> Prop)
+      (body : Z -> St * bytes -> res ((St * bytes) * bool)) :
+  (forall x s bs, P bs -> body x (s, bs) = match rd bs with Ok (v, r) => Ok ((upd s v, r), false) | Err e => Err e end) ->
+  (forall bs v r, P bs -> rd bs = Ok (v, r) -> P r /\ (length r < length bs)%nat) ->
+  forall n s bs, P bs ->
+  for_m (py_range 0 n) body (s, bs) = (do (l, r) <- rd_many n rd bs; Ok (fold_left upd l s, r)).
+Proof.
+  intros Hb Hp n s bs HP. rewrite (gen_fold_loop rd upd P body Hb Hp _ _ _ (S (length bs)) HP ltac:(lia)).
+  unfold rd_many, py_range. rewrite range_from_length.
+  destruct (Z.leb_spec n 0) as [Hn|Hn].
+  - replace (Z.to_nat (n - 0)) with O by lia. rewrite !rd_rep_nonpos by lia. reflexivity.
+  - rewrite Z2Nat.id by lia. rewrite Z.sub_0_r. reflexivity.
+Qed.
+
+Lemma fold_left_snoc_map {A B} (conv : A -> B) (l : list A) acc :
+  fold_left (fun a v => a ++ [conv v]) l acc = acc ++ map conv l.
+Proof.
+  revert acc. induction l as [|x l IH]; intros acc; cbn [fold_left map]; [now rewrite app_nil_r|].
+  rewrite IH, <- app_assoc. reflexivity.
+Qed.
+
+(* results equal up to the class of the error *)
+Definition res_same {A} (a b : res A) : Prop :=
+  match a, b with Ok x, Ok y => x = y | Err _, Err _ => True | _, _ => False end.
+Lemma res_same_refl {A} (a : res A) : res_same a a.
+Proof. destruct a; cbn; auto. Qed.
+Lemma res_same_eq {A} (a b : res A) : a = b -> res_same a b.
+Proof. intros ->. apply res_same_refl. Qed.
+
+Lemma rd_number_nonneg bs v r : wf_bytes bs = true -> rd_number bs = Ok (v, r) -> 0 <= v.
+Proof.
+  intros Hw. unfold rd_number, rd_fixed. destruct bs as [|b t]; [discriminate|].
+  cbn [wf_bytes forallb] in Hw. apply andb_true_iff in Hw as [Hb Hw]. unfold is_byte in Hb.
+  assert (Hwf : forall k l, wf_bytes l = true -> wf_bytes (firstn k l) = true).
+  { induction k as [|k IHk]; intros l Hl; [reflexivity|]. destruct l as [|x l]; [reflexivity|].
+    cbn [firstn wf_bytes forallb] in *. apply andb_true_iff in Hl as [H1 H2]. rewrite H1. exact (IHk l H2). }
+  assert (Hle : forall k, 0 <= le_value (firstn k t)).
+  { intros k. apply le_value_bound. now apply Hwf. }
+  destruct (b =? 255).
+  - destruct (length t <? 8)%nat; [discriminate|]. intros H. assert (v = le_value (firstn 8 t)) by congruence. subst. apply Hle.
+  - intros H. injection H as <- _. specialize (Hle (leading_ones b)).
+    assert (0 <= (if (leading_ones b <? 7)%nat then b mod 2 ^ (7 - Z.of_nat (leading_ones b)) else 0)).
+    { destruct (leading_ones b <? 7)%nat eqn:E7; [|lia]. apply Z.mod_pos_bound. apply Z.pow_pos_nonneg; lia. }
+    assert (0 <= 256 ^ Z.of_nat (leading_ones b)) by (apply Z.pow_nonneg; lia).
+    apply Z.add_nonneg_nonneg; [apply Z.mul_nonneg_nonneg|]; assumption.
+Qed.
+
+(* ------------------------------------------------------------------ what readers leave: suffixes of the input *)
+Definition suffix (r bs : bytes) : Prop := exists n, r = skipn n bs.
+Lemma skipn_add {A} (l : list A) : forall a b, skipn a (skipn b l) = skipn (b + a) l.
+Proof.
+  intros a b. revert l. induction b as [|b IH]; intros l; [reflexivity|].
+  destruct l as [|x l]; [now rewrite !skipn_nil|]. cbn [skipn plus]. apply IH.
+Qed.
+Lemma suffix_refl bs : suffix bs bs.
+Proof. exists 0%nat. reflexivity. Qed.
+Lemma suffix_trans a b c : suffix a b -> suffix b c -> suffix a c.
+Proof. intros [n ->] [m ->]. exists (m + n)%nat. apply skipn_add. Qed.
+Lemma suffix_wf r bs : suffix r bs -> wf_bytes bs = true -> wf_bytes r = true.
+Proof. intros [n ->]. apply wf_bytes_skipn. Qed.
+Lemma suffix_len r bs : suffix r bs -> (length r <= length bs)%nat.
+Proof. intros [n ->]. rewrite skipn_length. lia. Qed.
+Lemma suffix_cons b r t : suffix r t -> suffix r (b :: t).
+Proof. intros [n ->]. exists (S n). reflexivity. Qed.
+Lemma suffix_dropZ n bs : suffix (dropZ n bs) bs.
+Proof. unfold dropZ. eexists. reflexivity. Qed.
+Lemma rd_number_suffix bs v r : rd_number bs = Ok (v, r) -> suffix r bs.
+Proof. intros H. apply rd_number_rest in H as [n ->]. exists n. reflexivity. Qed.
+
+Lemma takeZ_firstn {A} (l : list A) n : 0 <= n -> takeZ n l = firstn (Z.to_nat n) l.
+Proof.
+  intros Hn. unfold takeZ, zlen. destruct (Z.le_ge_cases n (Z.of_nat (length l))).
+  - f_equal. lia.
+  - replace (Z.to_nat (Z.min (Z.max n 0) (Z.of_nat (length l)))) with (length l) by lia.
+    rewrite firstn_all. symmetry. apply firstn_all2. lia.
+Qed.
+Lemma dropZ_skipn {A} (l : list A) n : 0 <= n -> dropZ n l = skipn (Z.to_nat n) l.
+Proof.
+  intros Hn. unfold dropZ, zlen. destruct (Z.le_ge_cases n (Z.of_nat (length l))).
+  - f_equal. lia.
+  - replace (Z.to_nat (Z.min (Z.max n 0) (Z.of_nat (length l)))) with (length l) by lia.
+    rewrite skipn_all. symmetry. apply skipn_all2. lia.
+Qed.
+Lemma gen_rd_read_bytes bs n : 0 <= n -> rd_read bs n = (takeZ n bs, dropZ n bs).
+Proof. intros Hn. rewrite rd_read_nat, takeZ_firstn, dropZ_skipn by lia. reflexivity. Qed.
+
+Theorem gen_write_crcs_wr_list crcs : write_crcs crcs = wr_list (wr_fixed 4) crcs.
+Proof.
+  unfold write_crcs. rewrite (gen_write_loop write_uint32 (wr_fixed 4) gen_write_uint32_wr_fixed).
+  destruct (wr_list (wr_fixed 4) crcs); reflexivity.
+Qed.
+
+(* ------------------------------------------------------------------ fuel-free repetition *)
+Fixpoint rd_n {A} (k : nat) (rd : reader A) : reader (list A) := fun bs =>
+  match k with
+  | O => Ok ([], bs)
+  | S k' => do (x, r) <- rd bs; do (xs, r') <- rd_n k' rd r; Ok (x :: xs, r')
+  end.
+
+Lemma rd_rep_rd_n {A} (rd : reader A) (P : bytes -> Prop) :
+  (forall bs v r, P bs -> rd bs = Ok (v, r) -> P r /\ (length r < length bs)%nat) ->
+  forall f n bs, P bs -> (length bs < f)%nat -> rd_rep f n rd bs = rd_n (Z.to_nat n) rd bs.
+Proof.
+  intros Hp. induction f as [|f IH]; intros n bs HP Hf; [lia|]. cbn [rd_rep].
+  destruct (n <=? 0) eqn:E0.
+  - replace (Z.to_nat n) with O by lia. reflexivity.
+  - replace (Z.to_nat n) with (S (Z.to_nat (n - 1))) by lia. cbn [rd_n].
+    destruct (rd bs) as [[x r]|e] eqn:Er; cbn [bind]; [|reflexivity].
+    destruct (Hp _ _ _ HP Er) as [HPr Hl]. now rewrite IH by (try assumption; lia).
+Qed.
+
+Lemma rd_many_rd_n {A} (rd : reader A) (P : bytes -> Prop) :
+  (forall bs v r, P bs -> rd bs = Ok (v, r) -> P r /\ (length r < length bs)%nat) ->
+  forall n bs, P bs -> rd_many n rd bs = rd_n (Z.to_nat n) rd bs.
+Proof. intros Hp n bs HP. unfold rd_many. apply (rd_rep_rd_n rd P Hp); [exact HP | lia]. Qed.
+
+Lemma rd_n_app {A} (rd : reader A) a : forall b bs,
+  rd_n (a + b) rd bs = (do (l1, r1) <- rd_n a rd bs; do (l2, r2) <- rd_n b rd r1; Ok (l1 ++ l2, r2)).
+Proof.
+  induction a as [|a IH]; intros b bs; cbn [plus rd_n bind].
+  - destruct (rd_n b rd bs) as [[l r]|e]; reflexivity.
+  - destruct (rd bs) as [[x r]|e]; cbn [bind]; [|reflexivity]. rewrite IH.
+    destruct (rd_n a rd r) as [[l1 r1]|e]; cbn [bind]; [|reflexivity].
+    destruct (rd_n b rd r1) as [[l2 r2]|e]; reflexivity.
+Qed.
+
+Lemma rd_n_inv {A} (rd : reader A) (P : bytes -> Prop) :
+  (forall bs v r, P bs -> rd bs = Ok (v, r) -> P r /\ (length r < length bs)%nat) ->
+  forall k bs l r, P bs -> rd_n k rd bs = Ok (l, r) -> P r /\ length l = k.
+Proof.
+  intros Hp. induction k as [|k IH]; intros bs l r HP; cbn [rd_n].
+  - intros H. assert (l = [] /\ r = bs) as [-> ->] by (split; congruence). auto.
+  - destruct (rd bs) as [[x r1]|e] eqn:Er; cbn [bind]; [|discriminate].
+    destruct (rd_n k rd r1) as [[xs r2]|e] eqn:En; cbn [bind]; [|discriminate].
+    intros H. assert (l = x :: xs /\ r = r2) as [-> ->] by (split; congruence).
+    destruct (Hp _ _ _ HP Er) as [HP1 _]. destruct (IH _ _ _ HP1 En) as [HP2 Hl]. cbn [length]. auto.
+Qed.
+
+(* a loop whose body reads one item (with a reader that may hit the model's resource guard) and updates the state *)
+Lemma gen_fold_loop_or {A St X} (rd : reader A) (upd : St -> A -> St) (P : bytes -> Prop)
+      (body : X -> St * bytes -> res ((St * bytes) * bool)) :
+  (forall x s bs, P bs -> rd bs = Err EFuel \/
+                          body x (s, bs) = match rd bs with Ok (v, r) => Ok ((upd s v, r), false) | Err e => Err e end) ->
+  (forall bs v r, P bs -> rd bs = Ok (v, r) -> P r /\ (length r < length bs)%nat) ->
+  forall (xs : list X) s bs, P bs ->
+  rd_n (length xs) rd bs = Err EFuel \/
+  for_m xs body (s, bs) = (do (l, r) <- rd_n (length xs) rd bs; Ok (fold_left upd l s, r)).
+Proof.
+  intros Hb Hp xs. induction xs as [|x xs IH]; intros s bs HP.
+  - right. reflexivity.
+  - cbn [for_m rd_n length]. destruct (Hb x s bs HP) as [Hf|Hs]; [left; now rewrite Hf|].
+    rewrite Hs. destruct (rd bs) as [[v r]|e] eqn:Er; cbn [bind]; [|right; reflexivity].
+    destruct (Hp _ _ _ HP Er) as [HPr _]. destruct (IH (upd s v) r HPr) as [Hf|Hi].
+    + left. now rewrite Hf.
+    + right. rewrite Hi. destruct (rd_n (length xs) rd r) as [[l r']|e]; reflexivity.
+Qed.
+
+Lemma gen_fold_loop_n {A St X} (rd : reader A) (upd : St -> A -> St) (P : bytes -> Prop)
+      (body : X -> St * bytes -> res ((St * bytes) * bool)) :
+  (forall x s bs, P bs -> body x (s, bs) = match rd bs with Ok (v, r) => Ok ((upd s v, r), false) | Err e => Err e end) ->
+  (forall bs v r, P bs -> rd bs = Ok (v, r) -> P r /\ (length r < length bs)%nat) ->
+  forall (xs : list X) s bs, P bs ->
+  for_m xs body (s, bs) = (do (l, r) <- rd_n (length xs) rd bs; Ok (fold_left upd l s, r)).
+Proof.
+  intros Hb Hp xs. induction xs as [|x xs IH]; intros s bs HP; [reflexivity|].
+  cbn [for_m rd_n length]. rewrite (Hb x s bs HP). destruct (rd bs) as [[v r]|e] eqn:Er; cbn [bind]; [|reflexivity].
+  destruct (Hp _ _ _ HP Er) as [HPr _]. rewrite (IH (upd s v) r HPr).
+  destruct (rd_n (length xs) rd r) as [[l r']|e]; reflexivity.
+Qed.
+
+Lemma py_range_length a b : length (py_range a b) = Z.to_nat (b - a).
+Proof. unfold py_range. apply range_from_length. Qed.
